@@ -1,12 +1,13 @@
 #!/bin/bash
-# Make an isolated snapshot of /verif and /repo under /tmp/vsnap for evaluating seeded mutations
+# Make an isolated snapshot of /verif and /repo under $D for evaluating seeded mutations
 # without disturbing /repo or the working copy of /verif.
 set -e
-rm -rf /tmp/vsnap/verif; mkdir -p /tmp/vsnap
-[ -d /tmp/vsnap/repo ] && git -C /repo worktree remove --force /tmp/vsnap/repo || true
+D=${1:-/tmp/vsnap}
+rm -rf $D/verif; mkdir -p $D
+[ -d $D/repo ] && git -C /repo worktree remove --force $D/repo || true
 git -C /repo worktree prune
-git -C /repo worktree add -q --detach /tmp/vsnap/repo HEAD
-rsync -a --exclude target --exclude 'target-*' --exclude work --exclude .git /verif/ /tmp/vsnap/verif/
-sed -i 's|path = "/repo/miniz_oxide"|path = "/tmp/vsnap/repo/miniz_oxide"|; s|path = "/repo"|path = "/tmp/vsnap/repo"|' /tmp/vsnap/verif/harness/Cargo.toml
-cp /tmp/vsnap/repo/Cargo.lock /tmp/vsnap/verif/harness/Cargo.lock 2>/dev/null || true
+git -C /repo worktree add -q --detach $D/repo HEAD
+rsync -a --exclude target --exclude 'target-*' --exclude work --exclude .git /verif/ $D/verif/
+sed -i "s|path = \"/repo/miniz_oxide\"|path = \"$D/repo/miniz_oxide\"|; s|path = \"/repo\"|path = \"$D/repo\"|" $D/verif/harness/Cargo.toml
+cp $D/repo/Cargo.lock $D/verif/harness/Cargo.lock 2>/dev/null || true
 echo snapshot ready
